@@ -482,6 +482,18 @@ func runC19(c *h.Ctx) {
 			} else if !GoEq(g, want) {
 				cs.Viol("withdesc:ReadAnyWithDesc:value", "got", GoStr(g), "want", GoStr(want), "byteAsUint8", u8, "useFieldName", fn)
 			}
+			if err == nil {
+				// what was read is itself a value the writer takes: Write(Read(bytes)) denotes the same message
+				// (g may hold views of the input: written before the trap page goes away)
+				outg, werr := bpWrite(func(p *thrift.BinaryProtocol) error { return p.WriteAnyWithDesc(desc, g, false, true, fn) })
+				if werr != nil {
+					cs.Viol("withdesc:Write(Read):err", "err", werr, "go", GoStr(g), "byteAsUint8", u8, "useFieldName", fn)
+				} else if dec, derr := tref.Decode(outg, tref.STRUCT); derr != nil || !tref.EqualUnordered(dec, v) {
+					cs.Viol("withdesc:Write(Read):value", "decode-error", derr, "go", GoStr(g))
+				} else {
+					cs.Cover("write_of_read_value_ok")
+				}
+			}
 			tr.Free()
 			cs.Cover("readanywithdesc_calls")
 			// write back the documented Go value
